@@ -717,9 +717,15 @@ pub fn c04(tier: &str, seed: u64) {
   // thresholds differing in each single bit; prefix pairs; empty components
   let m0 = g.blob(9);
   let e0 = g.blob(3);
-  for bit in 0..32 {
-    check_distinct(&m0, &e0, 1u32 << bit, &mut seen);
-    check_distinct(&m0, &e0, (1u32 << bit) | 1, &mut seen);
+  // all thresholds differing from a base in exactly one bit, bases 0, 1, 2, 5 and 0x100
+  for base in [0u32, 1, 2, 5, 0x100] {
+    check_distinct(&m0, &e0, base, &mut seen);
+    for bit in 0..32 {
+      check_distinct(&m0, &e0, base ^ (1u32 << bit), &mut seen);
+    }
+  }
+  for t in [3u32, 4, 255, 256, 257, 65535, 65536, u32::MAX - 1, u32::MAX] {
+    check_distinct(&m0, &e0, t, &mut seen);
   }
   for l in 0..m0.len() {
     check_distinct(&m0[..l], &e0, 3, &mut seen);
